@@ -89,6 +89,9 @@ type Session struct {
 	state   LogonState
 	stateMu sync.RWMutex
 
+	// stopTimers stops the heartbeat and test request timers started by the last logon.
+	stopTimers func()
+
 	// Services:
 	Router       Handler
 	unmarshaller Unmarshaller
@@ -203,9 +206,19 @@ func newSession(opts *Opts, handler Handler, settings *LogonSettings, cs Counter
 }
 
 func (s *Session) changeState(state LogonState, isEventTriggerRequired bool) {
+	var stopTimers func()
+
 	s.stateMu.Lock()
 	s.state = state
+	if state == WaitingLogon || state == WaitingLogonAnswer {
+		// The session is logged out: its timers must not outlive it.
+		stopTimers, s.stopTimers = s.stopTimers, nil
+	}
 	s.stateMu.Unlock()
+
+	if stopTimers != nil {
+		stopTimers()
+	}
 
 	if !isEventTriggerRequired {
 		return
@@ -558,6 +571,21 @@ func (s *Session) start() error {
 		return err
 	}
 
+	timersCtx, cancelTimers := context.WithCancel(s.ctx)
+
+	s.stateMu.Lock()
+	previousTimers := s.stopTimers
+	s.stopTimers = func() {
+		cancelTimers()
+		incomingMsgTimer.Close()
+		outgoingMsgTimer.Close()
+	}
+	s.stateMu.Unlock()
+
+	if previousTimers != nil {
+		previousTimers()
+	}
+
 	s.Router.HandleIncoming(simplefixgo.AllMsgTypes, func(msg []byte) bool {
 		incomingMsgTimer.Refresh()
 		if s.state == WaitingTestReqAnswer {
@@ -578,7 +606,7 @@ func (s *Session) start() error {
 		for {
 			incomingMsgTimer.TakeTimeout()
 			select {
-			case <-s.ctx.Done():
+			case <-timersCtx.Done():
 				return
 			default:
 			}
@@ -604,7 +632,7 @@ func (s *Session) start() error {
 		for {
 			outgoingMsgTimer.TakeTimeout()
 			select {
-			case <-s.ctx.Done():
+			case <-timersCtx.Done():
 				return
 			default:
 			}
